@@ -430,8 +430,8 @@ static void c08_run(int tier, long cfg)
 
 enum { OS_IDLE, OS_DATA, OS_CHILD_CLOSED, OS_PARENT_CLOSED, OS_EOF_REPORTED, OS_NOT_PIPE, NOS };
 static const char *const os_names[] = { "idle", "data", "closed-by-child", "closed-by-parent", "eof-reported", "not-a-pipe" };
-enum { INS_IDLE, INS_CHILD_CLOSED, INS_PARENT_CLOSED, NINS };
-static const char *const ins_names[] = { "idle", "closed-by-child", "closed-by-parent" };
+enum { INS_IDLE, INS_CHILD_CLOSED, INS_PARENT_CLOSED, INS_FULL, INS_FULL_CHILD_CLOSED, NINS };
+static const char *const ins_names[] = { "idle", "closed-by-child", "closed-by-parent", "full", "full,then-closed-by-child" };
 enum { CS_RUNNING, CS_ZOMBIE, CS_REAPED, NCS };
 static const char *const cs_names[] = { "running", "zombie", "reaped" };
 
@@ -480,15 +480,32 @@ static void c09_prepare(struct proc *q, const struct c09_setup *su)
   char script[64] = "";
   if (su->os == OS_DATA) strcat(script, "W1:3 ");
   if (su->os == OS_CHILD_CLOSED || su->os == OS_EOF_REPORTED) strcat(script, "C1 ");
+  int fill = su->ins == INS_FULL || su->ins == INS_FULL_CHILD_CLOSED, late = 0;
   if (su->ins == INS_CHILD_CLOSED) strcat(script, "C0 ");
-  if (su->cs != CS_RUNNING) strcat(script, "X6 ");
+  if (su->cs != CS_RUNNING && !fill) strcat(script, "X6 ");
   strcat(script, "; ");
+  /* a full stdin pipe: the reader goes away (closes, exits) only after the parent has filled it; the harness releases those steps itself */
+  if (su->ins == INS_FULL_CHILD_CLOSED) { strcat(script, "C0 "); late++; }
+  if (su->cs != CS_RUNNING && fill) { strcat(script, "X6 "); late++; }
   /* one more step left for the explorer to release around the poll (only if the child is still running) */
   if (su->cs == CS_RUNNING) strcat(script, su->err_pipe ? "W2:1" : (su->os == OS_IDLE ? "W1:1" : "X6"));
   proc_start(q, script, o);
   int s = vk_cfg.sched_on;
   vk_cfg.sched_on = 0;
   uint8_t b[8];
+  if (fill) {
+    static uint8_t page[4096];
+    if (q->fd[0] < 0 || fcntl(q->fd[0], F_SETPIPE_SZ, 4096) < 0) vk_finish(OUT_INFRA, "cannot size the stdin pipe");
+    for (int g = 0; g < 8; g++) {
+      int w = hx_write(q->p, page, sizeof page);
+      if (w == REPROC_EWOULDBLOCK || w == REPROC_EPIPE) break; /* (EPIPE: a scheduling deviation during start let the reader go first) */
+      if (w < 0) vk_finish(OUT_INFRA, "filling stdin: %d", w);
+    }
+    while (q->c->state == CH_RUNNING && q->c->pos - q->c->nsetup < late) {
+      if (!vk_child_enabled(q->c)) vk_finish(OUT_INFRA, "the helper cannot make its late step");
+      vk_child_step(q->c);
+    }
+  }
   if (su->os == OS_PARENT_CLOSED) hx_close(q->p, REPROC_STREAM_OUT);
   if (su->os == OS_EOF_REPORTED) {
     int r = hx_read(q->p, REPROC_STREAM_OUT, b, sizeof b);
@@ -598,12 +615,15 @@ static void c09_check(struct proc *procs, int n, reproc_event_source *src, int t
 
 #define NSETUP (NOS * NINS * 2 * NCS)
 
-static void decode_setup(long v, struct c09_setup *su)
+/* two-source configurations of the quick tier leave the full-stdin states to the one-source ones */
+#define NSETUP2(tier) (NOS * ((tier) ? NINS : 3) * 2 * NCS)
+
+static void decode_setup(long v, struct c09_setup *su, int nins)
 {
   su->os = (int) (v % NOS);
   v /= NOS;
-  su->ins = (int) (v % NINS);
-  v /= NINS;
+  su->ins = (int) (v % nins);
+  v /= nins;
   su->err_pipe = (int) (v % 2);
   v /= 2;
   su->cs = (int) (v % NCS);
@@ -663,7 +683,7 @@ static long c09_n(int tier)
 {
   /* one source: setup x 16 masks x 2 timeouts; two sources: setup x second x {mask pairs reduced} x 2 timeouts, with a NULL source interleaved */
   long one = (long) NSETUP * 16 * 2;
-  long two = (long) NSETUP * NSECOND * (tier ? 16 : 4) * 2 * 2;
+  long two = (long) NSETUP2(tier) * NSECOND * (tier ? 16 : 4) * 2 * 2;
   return one + two + NFORKCFG;
 }
 
@@ -671,7 +691,7 @@ static void c09_run(int tier, long cfg)
 {
   long one = (long) NSETUP * 16 * 2;
   {
-    long two = (long) NSETUP * NSECOND * (tier ? 16 : 4) * 2 * 2;
+    long two = (long) NSETUP2(tier) * NSECOND * (tier ? 16 : 4) * 2 * 2;
     if (cfg >= one + two) { c09_fork_cfg(cfg - one - two); return; }
   }
   struct c09_setup su[2];
@@ -681,7 +701,7 @@ static void c09_run(int tier, long cfg)
     cfg /= 2;
     masks[0] = (int) (cfg % 16);
     cfg /= 16;
-    decode_setup(cfg, &su[0]);
+    decode_setup(cfg, &su[0], NINS);
   } else {
     cfg -= one;
     n = 2;
@@ -696,7 +716,7 @@ static void c09_run(int tier, long cfg)
     su[1] = second[cfg % NSECOND];
     masks[1] = 15;
     cfg /= NSECOND;
-    decode_setup(cfg, &su[0]);
+    decode_setup(cfg, &su[0], tier ? NINS : 3);
     su[1].expired_deadline = dl; /* the LAST source carries the expired deadline: everything before it must be cleared */
   }
   memset(&vk_cfg, 0, sizeof vk_cfg);
